@@ -631,10 +631,19 @@ impl IoLoop {
                     )
                     .context(RegisterWithPollHandleSnafu)?;
             } else if had_data_to_write {
-                trace!("reregistering socket for readable only");
                 have_written_to_socket = true;
+                // The very first write may have been short (or may have hit WouldBlock
+                // at once): keep the writable interest as long as unsent data remains,
+                // otherwise nothing would ever wake us up to send the rest.
+                let interest = if self.inner.has_data_to_write() {
+                    trace!("reregistering socket for readable or writable");
+                    Ready::readable() | Ready::writable()
+                } else {
+                    trace!("reregistering socket for readable only");
+                    Ready::readable()
+                };
                 self.poll
-                    .reregister(stream, STREAM, Ready::readable(), PollOpt::edge())
+                    .reregister(stream, STREAM, interest, PollOpt::edge())
                     .context(RegisterWithPollHandleSnafu)?;
             }
         }
